@@ -1732,6 +1732,9 @@ impl<'a> Parser<'a> {
             arg_count += 1;
         }
 
+        if arg_count > 255 {
+            s.error("Cannot have more than 255 parts in an interpolated string.");
+        }
         s.emit_bytes([OpCode::BuildString as u8, arg_count as u8]);
     }
 
